@@ -61,6 +61,15 @@ theorem r_filterItem {pred pred' : EvalM Value} (hp : E.R pred pred') (v : Value
     · exact r_bracket E _ (r_bracket E _ ht)
   · exact r_bracket E _ ht
 
+theorem r_itemScoped {pred pred' : EvalM Value} (hp : E.R pred pred') (v : Value) :
+    E.R (itemScoped pred v) (itemScoped pred' v) := by
+  unfold itemScoped
+  split
+  · split
+    · exact r_bracket E _ hp
+    · exact r_bracket E _ (r_bracket E _ hp)
+  · exact r_bracket E _ hp
+
 theorem r_filterLoop {pred pred' : EvalM Value} (hp : E.R pred pred') (vs : List Value) :
     E.R (filterLoop pred vs) (filterLoop pred' vs) := by
   induction vs with
@@ -77,7 +86,7 @@ theorem r_forLoop {body body' : EvalM Value} (hb : E.R body body') (cs : List Ct
     unfold forLoop
     exact E.bind (r_bracket E _ hb) (fun _ => ih _)
 
-theorem r_quantLoop {sat sat' : EvalM Value} (hs : E.R sat sat') (isSome : Bool) (cs : List Ctx) (acc : Bool) :
+theorem r_quantLoop {sat sat' : EvalM Value} (hs : E.R sat sat') (isSome : Bool) (cs : List Ctx) (acc : Bool × Bool) :
     E.R (quantLoop isSome sat cs acc) (quantLoop isSome sat' cs acc) := by
   induction cs generalizing acc with
   | nil => exact E.pure _
@@ -98,8 +107,10 @@ theorem r_invokePositional (env : Env) (call' : Ast → EvalM Value) (hc : ∀ b
   split
   · exact E.lift _
   · split
-    · exact r_callFunction E env call' hc _ _ _
     · exact E.pure _
+    · split
+      · exact r_callFunction E env call' hc _ _ _
+      · exact E.pure _
   · exact E.pure _
 
 theorem r_invokeNamed (env : Env) (call' : Ast → EvalM Value) (hc : ∀ b, E.R (env.call b) (call' b))
@@ -112,8 +123,10 @@ theorem r_invokeNamed (env : Env) (call' : Ast → EvalM Value) (hc : ∀ b, E.R
     · exact E.pure _
   · split
     · split
-      · exact r_callFunction E env call' hc _ _ _
       · exact E.pure _
+      · split
+        · exact r_callFunction E env call' hc _ _ _
+        · exact E.pure _
     · exact r_callFunction E env call' hc _ _ _
   · exact E.pure _
 
@@ -173,7 +186,7 @@ theorem r_evalStep (E : EvalRel) (env : Env) (call' : Ast → EvalM Value)
     exact E.bind hx (fun _ => E.searchDeep _)
   | .context es => by
     simp only [evalStep]
-    exact E.pushPop [] Value.ctx (rq_evalContextEntries E env call' hc es [])
+    exact E.pushPop [] ctxResult (rq_evalContextEntries E env call' hc es [])
   | .filter a b => by
     have ha := r_evalStep E env call' hc a
     have hb := r_evalStep E env call' hc b
@@ -188,7 +201,7 @@ theorem r_evalStep (E : EvalRel) (env : Env) (call' : Ast → EvalM Value)
       intro r
       split <;> exact E.pure _
     · split
-      · exact E.bind hb (fun _ => E.pure _)
+      · exact E.bind (r_itemScoped E hb _) (fun _ => E.pure _)
       · exact E.pure _
   | .for (.iterationContexts items) body => by
     have hb := r_evalStep E env call' hc body
@@ -206,6 +219,7 @@ theorem r_evalStep (E : EvalRel) (env : Env) (call' : Ast → EvalM Value)
     intro st
     split
     · exact E.pure _
+    · exact E.pure _
     · exact E.bind (E.lift _) (fun _ => E.bind (r_quantLoop E hb _ _ _) (fun _ => E.pure _))
   | .some (.quantifiedContexts items) (.satisfies body) => by
     have hb := r_evalStep E env call' hc body
@@ -213,6 +227,7 @@ theorem r_evalStep (E : EvalRel) (env : Env) (call' : Ast → EvalM Value)
     apply E.bind (r_evalQuantified E env call' hc items 0)
     intro st
     split
+    · exact E.pure _
     · exact E.pure _
     · exact E.bind (E.lift _) (fun _ => E.bind (r_quantLoop E hb _ _ _) (fun _ => E.pure _))
   | .functionInvocation f (.positionalParameters xs) => by
@@ -262,6 +277,7 @@ theorem r_evalStep (E : EvalRel) (env : Env) (call' : Ast → EvalM Value)
       exact E.bind (r_evalQuantified E env call' hc items 0) (fun st => by
         split
         · exact E.pure _
+        · exact E.pure _
         · exact E.bind (E.lift _) (fun _ => E.bind (r_quantLoop E (r_evalStep E env call' hc body) _ _ _) (fun _ => E.pure _)))
     · exact E.pure _
   | .some ctxs sat => by
@@ -270,6 +286,7 @@ theorem r_evalStep (E : EvalRel) (env : Env) (call' : Ast → EvalM Value)
     · rename_i items body
       exact E.bind (r_evalQuantified E env call' hc items 0) (fun st => by
         split
+        · exact E.pure _
         · exact E.pure _
         · exact E.bind (E.lift _) (fun _ => E.bind (r_quantLoop E (r_evalStep E env call' hc body) _ _ _) (fun _ => E.pure _)))
     · exact E.pure _
@@ -309,7 +326,9 @@ theorem rq_evalContextEntries (E : EvalRel) (env : Env) (call' : Ast → EvalM V
     apply E.qBind (E.qOfR (r_evalStep E env call' hc e))
     intro v
     split
-    · exact E.qBind (E.qSetEntry _ _) (fun _ => rq_evalContextEntries E env call' hc es _)
+    · split
+      · exact E.qPure _
+      · exact E.qBind (E.qSetEntry _ _) (fun _ => rq_evalContextEntries E env call' hc es _)
     · exact rq_evalContextEntries E env call' hc es _
 theorem r_evalQuantified (E : EvalRel) (env : Env) (call' : Ast → EvalM Value)
     (hc : ∀ b, E.R (env.call b) (call' b)) :
@@ -322,6 +341,7 @@ theorem r_evalQuantified (E : EvalRel) (env : Env) (call' : Ast → EvalM Value)
     intro v
     split
     · exact E.pure _
+    · exact E.pure _
     · exact E.bind (r_evalQuantified E env call' hc items _) (fun _ => E.pure _)
   | item :: items, pos => by
     have ih := r_evalQuantified E env call' hc items (pos + 1)
@@ -331,6 +351,7 @@ theorem r_evalQuantified (E : EvalRel) (env : Env) (call' : Ast → EvalM Value)
       apply E.bind (r_evalStep E env call' hc e)
       intro v
       split
+      · exact E.pure _
       · exact E.pure _
       · exact E.bind ih (fun _ => E.pure _)
     · exact ih
@@ -344,6 +365,7 @@ theorem r_evalIteration (E : EvalRel) (env : Env) (call' : Ast → EvalM Value)
     apply E.bind (r_evalStep E env call' hc e)
     intro v
     split
+    · exact E.pure _
     · exact E.pure _
     · exact E.bind (r_evalIteration E env call' hc items _) (fun _ => E.pure _)
   | .iterationContextRange (.name n) lo hi :: items, pos => by
@@ -360,6 +382,7 @@ theorem r_evalIteration (E : EvalRel) (env : Env) (call' : Ast → EvalM Value)
       apply E.bind (r_evalStep E env call' hc e)
       intro v
       split
+      · exact E.pure _
       · exact E.pure _
       · exact E.bind ih (fun _ => E.pure _)
     · rename_i n lo hi
